@@ -136,6 +136,21 @@ impl Properties {
   }
 }
 
+#[cfg(feature = "verif")]
+impl Properties {
+  pub fn verif_from_cbor(cbor: &[u8]) -> Self {
+    Self::from_cbor(cbor)
+  }
+
+  pub fn verif_to_inline_cbor(&self) -> Option<Vec<u8>> {
+    self.to_inline_cbor()
+  }
+
+  pub fn verif_to_packed_cbor(&self) -> Option<Vec<u8>> {
+    self.to_packed_cbor()
+  }
+}
+
 #[derive(Clone, Debug, Deserialize, PartialEq, Serialize)]
 #[serde(untagged)]
 pub enum Trait {
